@@ -111,9 +111,11 @@ def _driver_chunk(chunk):
 
 
 def run_driver_parallel(lines, pool=None):
-    if len(lines) < 4000 or pool is None:
+    if len(lines) < 32 or pool is None:
         return run_driver(lines)
-    k = max(1, len(lines) // (NPROC * 2))
+    # several driver processes side by side (the compiled driver starts in milliseconds); small chunks so that a
+    # stream with a few expensive lines is spread over all cores
+    k = max(4, min(2000, len(lines) // (NPROC * 4) + 1))
     chunks = [lines[i:i + k] for i in range(0, len(lines), k)]
     res = []
     for r in pool.map(_driver_chunk, chunks):
@@ -368,14 +370,19 @@ class Ctx:
         lines = list(lines)
         if not lines:
             return
+        t_start = time.time()
         k = max(1, min(2000, len(lines) // (NPROC * 4) + 1))
         chunks = [lines[i:i + k] for i in range(0, len(lines), k)]
         results = []
         for r in self.pool.map(_eval_chunk, chunks):
             results.extend(r)
+        t_impl = time.time()
         model = None
         if use_model and self.model_ok and driver_available():
             model = run_driver_parallel(lines, self.pool)
+        if os.environ.get("VERIF_PROGRESS"):
+            sys.stderr.write("[%6.0fs] stream %-32s %7d lines  impl+oracle %.0fs  model %.0fs\n" % (
+                time.time() - self.t0, stream, len(lines), t_impl - t_start, time.time() - t_impl))
         for idx, line in enumerate(lines):
             io, oo, nt = results[idx]
             mo = model[idx] if model is not None else None
